@@ -1,3 +1,337 @@
 (* Properties/C07.v — statements only. *)
 From Dnp3V Require Import Link.Layer Link.LayerProofs.
+From Dnp3V Require Import Link.CrcProofs Link.ParserProofs.
 Open Scope N_scope.
+
+(* ---------- 1. the endpoint acts only on frames addressed to it ---------------------------------- *)
+
+(* whenever process_header hands a frame up, replies, or changes the secondary state, the frame came
+   from the opposite station type, from an endpoint (non-reserved, non-broadcast, non-self) source,
+   and was sent to the own address, to the self address with the feature enabled, or (outstation
+   only, user data only) to a broadcast address; what is handed up and the reply name that source *)
+Theorem C07_acted_implies_addressed : forall cfg ss h ss' info rp,
+  process_header cfg ss h = (ss', info, rp) ->
+  (info <> None \/ rp <> None \/ ss' <> ss) ->
+  c_master (h_control h) <> dir_bit (l_type cfg) /\
+  exists s, h_src h = AEndpoint s /\
+    (h_dest h = AEndpoint (l_addr cfg) \/ (h_dest h = ASelf /\ l_self cfg = true) \/
+     (exists m, h_dest h = ABroadcast m /\ l_type cfg = Outstation /\
+                is_user_data (c_func (h_control h)) = true)) /\
+    (forall i, info = Some i -> fi_source i = s) /\
+    (forall r, rp = Some r -> rp_addr r = s).
+Proof. exact acted_implies_addressed. Qed.
+Print Assumptions C07_acted_implies_addressed.
+
+(* the filter (LayerProofs.link_filter, used below as `accepted`) in words *)
+Theorem C07_link_filter_spec : forall cfg h source broadcast,
+  link_filter cfg h = Some (source, broadcast) <->
+  c_master (h_control h) = negb (dir_bit (l_type cfg)) /\
+  h_src h = AEndpoint source /\
+  ((broadcast = None /\
+    (h_dest h = AEndpoint (l_addr cfg) \/ (h_dest h = ASelf /\ l_self cfg = true))) \/
+   (exists m, broadcast = Some m /\ h_dest h = ABroadcast m /\ l_type cfg = Outstation /\
+              is_user_data (c_func (h_control h)) = true)).
+Proof. exact link_filter_spec. Qed.
+Print Assumptions C07_link_filter_spec.
+
+Theorem C07_not_addressed_ignored : forall cfg ss h,
+  link_filter cfg h = None -> process_header cfg ss h = (ss, None, None).
+Proof. exact not_addressed_ignored. Qed.
+Print Assumptions C07_not_addressed_ignored.
+
+Theorem C07_same_direction_ignored : forall cfg ss h,
+  c_master (h_control h) = dir_bit (l_type cfg) -> process_header cfg ss h = (ss, None, None).
+Proof. exact same_direction_ignored. Qed.
+Print Assumptions C07_same_direction_ignored.
+
+Theorem C07_bad_source_ignored : forall cfg ss h,
+  (forall s, h_src h <> AEndpoint s) -> process_header cfg ss h = (ss, None, None).
+Proof. exact bad_source_ignored. Qed.
+Print Assumptions C07_bad_source_ignored.
+
+Theorem C07_other_destination_ignored : forall cfg ss h x,
+  h_dest h = AEndpoint x -> x <> l_addr cfg -> process_header cfg ss h = (ss, None, None).
+Proof. exact other_destination_ignored. Qed.
+Print Assumptions C07_other_destination_ignored.
+
+Theorem C07_reserved_destination_ignored : forall cfg ss h x,
+  h_dest h = AReserved x -> process_header cfg ss h = (ss, None, None).
+Proof. exact reserved_destination_ignored. Qed.
+Print Assumptions C07_reserved_destination_ignored.
+
+Theorem C07_self_address_disabled_ignored : forall cfg ss h,
+  h_dest h = ASelf -> l_self cfg = false -> process_header cfg ss h = (ss, None, None).
+Proof. exact self_address_disabled_ignored. Qed.
+Print Assumptions C07_self_address_disabled_ignored.
+
+(* ---------- 2. broadcasts ---------------------------------------------------------------------------- *)
+
+Theorem C07_no_reply_to_broadcast : forall cfg ss h m,
+  h_dest h = ABroadcast m -> snd (process_header cfg ss h) = None.
+Proof. exact no_reply_to_broadcast. Qed.
+Print Assumptions C07_no_reply_to_broadcast.
+
+Theorem C07_master_ignores_broadcast : forall cfg ss h m,
+  l_type cfg = Master -> h_dest h = ABroadcast m -> process_header cfg ss h = (ss, None, None).
+Proof. exact master_ignores_broadcast. Qed.
+Print Assumptions C07_master_ignores_broadcast.
+
+Theorem C07_broadcast_non_user_data_ignored : forall cfg ss h m,
+  h_dest h = ABroadcast m -> is_user_data (c_func (h_control h)) = false ->
+  process_header cfg ss h = (ss, None, None).
+Proof. exact broadcast_non_user_data_ignored. Qed.
+Print Assumptions C07_broadcast_non_user_data_ignored.
+
+(* a run of frames that all have a broadcast destination transmits nothing *)
+Theorem C07_broadcast_trace_no_tx : forall cfg obs ss,
+  Forall (fun o => match o with OFrame h _ => exists m, h_dest h = ABroadcast m | _ => False end) obs ->
+  forall o, In o (layer_obs cfg ss obs) -> match o with LTx _ => true | _ => false end = false.
+Proof. exact broadcast_trace_no_tx. Qed.
+Print Assumptions C07_broadcast_trace_no_tx.
+
+(* ---------- 3. link status requests ------------------------------------------------------------------ *)
+
+Theorem C07_link_status_answered : forall cfg ss h s,
+  (h_dest h = AEndpoint (l_addr cfg) \/ (h_dest h = ASelf /\ l_self cfg = true)) ->
+  c_master (h_control h) = negb (dir_bit (l_type cfg)) ->
+  h_src h = AEndpoint s ->
+  c_func (h_control h) = PriRequestLinkStatus -> c_fcv (h_control h) = false ->
+  process_header cfg ss h =
+    (ss, Some (mk_info s None FLinkStatusRequest), Some {| rp_addr := s; rp_func := SecLinkStatus |}).
+Proof. exact link_status_answered. Qed.
+Print Assumptions C07_link_status_answered.
+
+(* the reply on the wire is a well-formed header-only frame from the own address to the requester,
+   carrying the endpoint's own direction bit, FCB = FCV = 0 (every function code the library knows) *)
+Theorem C07_reply_bytes_parse : forall cfg s f rest,
+  s < 65520 -> l_addr cfg < 65520 -> match f with FUnknown _ => False | _ => True end ->
+  parse_impl FindSync1 (reply_bytes cfg {| rp_addr := s; rp_func := f |} ++ rest) =
+  (FindSync1, rest,
+   PFrame {| h_control := {| c_func := f; c_master := dir_bit (l_type cfg); c_fcb := false; c_fcv := false |};
+             h_dest := AEndpoint s; h_src := AEndpoint (l_addr cfg) |} []).
+Proof. exact reply_bytes_parse. Qed.
+Print Assumptions C07_reply_bytes_parse.
+
+(* ... and every function with a code below 16 that decodes back to itself *)
+Theorem C07_reply_bytes_parse_any : forall cfg s f rest,
+  s < 65520 -> l_addr cfg < 65520 -> (lfunc_to f < 16 /\ lfunc_from (lfunc_to f) = f) ->
+  parse_impl FindSync1 (reply_bytes cfg {| rp_addr := s; rp_func := f |} ++ rest) =
+  (FindSync1, rest,
+   PFrame {| h_control := {| c_func := f; c_master := dir_bit (l_type cfg); c_fcb := false; c_fcv := false |};
+             h_dest := AEndpoint s; h_src := AEndpoint (l_addr cfg) |} []).
+Proof. exact reply_bytes_parse_any. Qed.
+Print Assumptions C07_reply_bytes_parse_any.
+
+Theorem C07_format_header_fixed_size_eq : forall h, format_header_fixed_size h = format_frame h [].
+Proof. exact format_header_fixed_size_eq. Qed.
+Print Assumptions C07_format_header_fixed_size_eq.
+
+(* the reply is not acted upon by another endpoint of the same type *)
+Theorem C07_reply_header_ignored_by_same_type : forall cfg cfg' ss r,
+  l_type cfg' = l_type cfg ->
+  process_header cfg' ss
+    {| h_control := {| c_func := rp_func r; c_master := dir_bit (l_type cfg); c_fcb := false; c_fcv := false |};
+       h_dest := AEndpoint (rp_addr r); h_src := AEndpoint (l_addr cfg) |} = (ss, None, None).
+Proof. exact reply_header_ignored_by_same_type. Qed.
+Print Assumptions C07_reply_header_ignored_by_same_type.
+
+(* ---------- 4. confirmed user data ------------------------------------------------------------------- *)
+
+(* (a) not reset: nothing delivered, nothing acknowledged; only an accepted reset leaves NotReset *)
+Theorem C07_confirmed_not_reset_ignored : forall cfg h,
+  c_func (h_control h) = PriConfirmedUserData ->
+  process_header cfg NotReset h = (NotReset, None, None).
+Proof. exact confirmed_not_reset_ignored. Qed.
+Print Assumptions C07_confirmed_not_reset_ignored.
+
+Theorem C07_not_reset_persists : forall cfg h ss' info rp,
+  process_header cfg NotReset h = (ss', info, rp) -> ss' <> NotReset ->
+  c_func (h_control h) = PriResetLinkStates /\ c_fcv (h_control h) = false /\ ss' = ResetS true /\
+  info = None /\
+  exists s, link_filter cfg h = Some (s, None) /\ rp = Some {| rp_addr := s; rp_func := SecAck |}.
+Proof. exact not_reset_persists. Qed.
+Print Assumptions C07_not_reset_persists.
+
+Theorem C07_not_reset_run : forall cfg hs,
+  Forall (fun h => c_func (h_control h) <> PriResetLinkStates) hs -> run_sec cfg NotReset hs = NotReset.
+Proof. exact not_reset_run. Qed.
+Print Assumptions C07_not_reset_run.
+
+(* (b) an accepted reset leaves ResetS true in every state, and is acknowledged to its source *)
+Theorem C07_reset_link_states_unicast : forall cfg ss h s,
+  (h_dest h = AEndpoint (l_addr cfg) \/ (h_dest h = ASelf /\ l_self cfg = true)) ->
+  c_master (h_control h) = negb (dir_bit (l_type cfg)) -> h_src h = AEndpoint s ->
+  c_func (h_control h) = PriResetLinkStates -> c_fcv (h_control h) = false ->
+  process_header cfg ss h = (ResetS true, None, Some {| rp_addr := s; rp_func := SecAck |}).
+Proof. exact reset_link_states_unicast. Qed.
+Print Assumptions C07_reset_link_states_unicast.
+
+(* (c) in state ResetS e *)
+Theorem C07_confirmed_unicast : forall cfg e h s,
+  (h_dest h = AEndpoint (l_addr cfg) \/ (h_dest h = ASelf /\ l_self cfg = true)) ->
+  c_master (h_control h) = negb (dir_bit (l_type cfg)) -> h_src h = AEndpoint s ->
+  c_func (h_control h) = PriConfirmedUserData -> c_fcv (h_control h) = true ->
+  process_header cfg (ResetS e) h =
+    if bool_eqb (c_fcb (h_control h)) e
+    then (ResetS (negb e), Some (mk_info s None FData), Some {| rp_addr := s; rp_func := SecAck |})
+    else (ResetS e, None, Some {| rp_addr := s; rp_func := SecAck |}).
+Proof. exact confirmed_unicast. Qed.
+Print Assumptions C07_confirmed_unicast.
+
+Theorem C07_confirmed_broadcast : forall cfg e h s m,
+  l_type cfg = Outstation -> h_dest h = ABroadcast m -> c_master (h_control h) = true ->
+  h_src h = AEndpoint s ->
+  c_func (h_control h) = PriConfirmedUserData -> c_fcv (h_control h) = true ->
+  process_header cfg (ResetS e) h =
+    if bool_eqb (c_fcb (h_control h)) e
+    then (ResetS (negb e), Some (mk_info s (Some m) FData), None)
+    else (ResetS e, None, None).
+Proof. exact confirmed_broadcast. Qed.
+Print Assumptions C07_confirmed_broadcast.
+
+Theorem C07_confirmed_delivered_iff : forall cfg ss h,
+  c_func (h_control h) = PriConfirmedUserData ->
+  (snd (fst (process_header cfg ss h)) <> None <->
+   (exists s b, link_filter cfg h = Some (s, b)) /\ c_fcv (h_control h) = true /\
+   ss = ResetS (c_fcb (h_control h))).
+Proof. exact confirmed_delivered_iff. Qed.
+Print Assumptions C07_confirmed_delivered_iff.
+
+Theorem C07_first_confirmed_after_reset_has_fcb_1 : forall cfg h,
+  c_func (h_control h) = PriConfirmedUserData ->
+  snd (fst (process_header cfg (ResetS true) h)) <> None -> c_fcb (h_control h) = true.
+Proof. exact first_confirmed_after_reset_has_fcb_1. Qed.
+Print Assumptions C07_first_confirmed_after_reset_has_fcb_1.
+
+Theorem C07_retransmission_not_delivered : forall cfg ss h ss' i rp,
+  c_func (h_control h) = PriConfirmedUserData ->
+  process_header cfg ss h = (ss', Some i, rp) ->
+  process_header cfg ss' h = (ss', None, rp).
+Proof. exact retransmission_not_delivered. Qed.
+Print Assumptions C07_retransmission_not_delivered.
+
+(* (d) along any run of headers from any state: conf_trace lists a None for each acknowledged reset
+   and Some fcb for each delivered confirmed frame; the FCBs alternate, start again with 1 after
+   each reset, and there is none before the first reset when the run starts in NotReset *)
+Theorem C07_conf_trace_wf : forall cfg hs ss, wf_from ss (conf_trace cfg ss hs).
+Proof. exact conf_trace_wf. Qed.
+Print Assumptions C07_conf_trace_wf.
+
+Theorem C07_confirmed_data_once_per_fcb : forall cfg ss hs l1 a b l2,
+  conf_trace cfg ss hs = l1 ++ Some a :: Some b :: l2 -> b = negb a.
+Proof. exact confirmed_data_once_per_fcb. Qed.
+Print Assumptions C07_confirmed_data_once_per_fcb.
+
+Theorem C07_confirmed_data_after_reset_fcb_1 : forall cfg ss hs l1 b l2,
+  conf_trace cfg ss hs = l1 ++ None :: Some b :: l2 -> b = true.
+Proof. exact confirmed_data_after_reset_fcb_1. Qed.
+Print Assumptions C07_confirmed_data_after_reset_fcb_1.
+
+Theorem C07_confirmed_data_needs_reset : forall cfg hs b l,
+  conf_trace cfg NotReset hs <> Some b :: l.
+Proof. exact confirmed_data_needs_reset. Qed.
+Print Assumptions C07_confirmed_data_needs_reset.
+
+(* conf_trace against what the layer hands up *)
+Theorem C07_layer_obs_frame_cons : forall cfg ss h p rest,
+  layer_obs cfg ss (OFrame h p :: rest) =
+  (match snd (process_header cfg ss h) with Some r => [LTx (reply_bytes cfg r)] | None => [] end)
+  ++ (match snd (fst (process_header cfg ss h)) with Some i => [LInfo i p] | None => [] end)
+  ++ layer_obs cfg (fst (fst (process_header cfg ss h))) rest.
+Proof. exact layer_obs_frame_cons. Qed.
+Print Assumptions C07_layer_obs_frame_cons.
+
+Theorem C07_layer_obs_frames_app : forall cfg fs1 ss fs2,
+  layer_obs cfg ss (map oframe (fs1 ++ fs2)) =
+  layer_obs cfg ss (map oframe fs1) ++ layer_obs cfg (run_sec cfg ss (map fst fs1)) (map oframe fs2).
+Proof. exact layer_obs_frames_app. Qed.
+Print Assumptions C07_layer_obs_frames_app.
+
+Theorem C07_delivered_confirmed_are_infos : forall cfg frames ss,
+  Forall (fun f => c_func (h_control (fst f)) <> PriUnconfirmedUserData) frames ->
+  length (filter is_data_info (layer_obs cfg ss (map oframe frames))) =
+  length (filter is_delivery (conf_trace cfg ss (map fst frames))).
+Proof. exact delivered_confirmed_are_infos. Qed.
+Print Assumptions C07_delivered_confirmed_are_infos.
+
+(* ---------- 5. the control bytes an endpoint acts on --------------------------------------------- *)
+
+Theorem C07_acting_controls_unicast : forall cfg ss h s b,
+  b < 256 -> h_control h = control_from b -> h_src h = AEndpoint s ->
+  (h_dest h = AEndpoint (l_addr cfg) \/ (h_dest h = ASelf /\ l_self cfg = true)) ->
+  match process_header cfg ss h with (_, None, None) => false | _ => true end =
+  existsb (N.eqb b)
+    match l_type cfg, ss with
+    | Outstation, NotReset => [139; 155; 171; 187; 192; 196; 201; 224; 228; 233]
+    | Outstation, ResetS _ => [139; 155; 171; 187; 192; 196; 201; 211; 224; 228; 233; 243]
+    | Master, NotReset => [11; 27; 43; 59; 64; 68; 73; 96; 100; 105]
+    | Master, ResetS _ => [11; 27; 43; 59; 64; 68; 73; 83; 96; 100; 105; 115]
+    end.
+Proof. exact acting_controls_unicast. Qed.
+Print Assumptions C07_acting_controls_unicast.
+
+Theorem C07_acting_controls_broadcast : forall cfg ss h s m b,
+  b < 256 -> h_control h = control_from b -> h_src h = AEndpoint s -> h_dest h = ABroadcast m ->
+  match process_header cfg ss h with (_, None, None) => false | _ => true end =
+  existsb (N.eqb b)
+    match l_type cfg, ss with
+    | Outstation, NotReset => [196; 228]
+    | Outstation, ResetS true => [196; 228; 243]
+    | Outstation, ResetS false => [196; 211; 228]
+    | Master, _ => []
+    end.
+Proof. exact acting_controls_broadcast. Qed.
+Print Assumptions C07_acting_controls_broadcast.
+
+Theorem C07_control_from_to : forall c,
+  match c_func c with FUnknown _ => False | _ => True end -> control_from (control_to c) = c.
+Proof. exact control_from_to. Qed.
+Print Assumptions C07_control_from_to.
+
+Theorem C07_address_from_endpoint : forall x, x < 65520 -> address_from x = AEndpoint x.
+Proof. exact address_from_endpoint. Qed.
+Print Assumptions C07_address_from_endpoint.
+
+(* ---------- non-vacuity ------------------------------------------------------------------------------- *)
+
+Definition c07_outstation : lcfg := {| l_type := Outstation; l_self := false; l_addr := 1024 |}.
+
+(* a link status request (C9) to outstation 1024 from master 1, and the reply bytes *)
+Example C07_link_status_instance :
+  mk_header 201 1024 1 =
+    {| h_control := {| c_func := PriRequestLinkStatus; c_master := true; c_fcb := false; c_fcv := false |};
+       h_dest := AEndpoint 1024; h_src := AEndpoint 1 |} /\
+  process_header c07_outstation NotReset (mk_header 201 1024 1) =
+    (NotReset, Some (mk_info 1 None FLinkStatusRequest), Some {| rp_addr := 1; rp_func := SecLinkStatus |}) /\
+  reply_bytes c07_outstation {| rp_addr := 1; rp_func := SecLinkStatus |} = [5; 100; 5; 11; 1; 0; 0; 4; 100; 64] /\
+  reply_bytes c07_outstation {| rp_addr := 1; rp_func := SecAck |} = [5; 100; 5; 0; 1; 0; 0; 4; 39; 112].
+Proof. repeat split; vm_compute; reflexivity. Qed.
+
+(* the same request by broadcast, from the own station type, or from a reserved source: ignored *)
+Example C07_ignored_instances :
+  process_header c07_outstation NotReset (mk_header 201 65535 1) = (NotReset, None, None) /\
+  process_header c07_outstation NotReset (mk_header 73 1024 1) = (NotReset, None, None) /\
+  process_header c07_outstation NotReset (mk_header 201 1024 65521) = (NotReset, None, None) /\
+  process_header c07_outstation NotReset (mk_header 201 1025 1) = (NotReset, None, None) /\
+  process_header c07_outstation NotReset (mk_header 201 65532 1) = (NotReset, None, None).
+Proof. repeat split; vm_compute; reflexivity. Qed.
+
+(* reset (C0), confirmed data FCB=1 (F3) twice, FCB=0 (D3), reset, FCB=0, broadcast FCB=1, unicast FCB=1 *)
+Example C07_conf_trace_instance :
+  conf_trace c07_outstation NotReset
+    [mk_header 243 1024 1; mk_header 192 1024 1; mk_header 243 1024 1; mk_header 243 1024 1;
+     mk_header 211 1024 1; mk_header 192 1024 1; mk_header 211 1024 1; mk_header 243 65535 1;
+     mk_header 243 1024 1]
+  = [None; Some true; Some false; None; Some true].
+Proof. vm_compute. reflexivity. Qed.
+
+(* what C07_confirmed_broadcast means for a run: after a reset, a confirmed broadcast with FCB=1 is
+   handed up without acknowledgement and consumes the expected FCB, so the next unicast confirmed
+   frame with FCB=1 (the master's first after the reset) is acknowledged but NOT handed up *)
+Example C07_broadcast_consumes_fcb_instance :
+  layer_obs c07_outstation NotReset
+    (map oframe [(mk_header 192 1024 1, []); (mk_header 243 65535 1, [7]); (mk_header 243 1024 1, [8])])
+  = [LTx [5; 100; 5; 0; 1; 0; 0; 4; 39; 112];
+     LInfo (mk_info 1 (Some BOptional) FData) [7];
+     LTx [5; 100; 5; 0; 1; 0; 0; 4; 39; 112]].
+Proof. vm_compute. reflexivity. Qed.
